@@ -329,3 +329,35 @@ mut("c13-soes-is-one-any-position", "C13",
     ("src/sop/soes.rs",
      "            Some(c) => c.is_one(),\n            None => false,",
      "            Some(c) => c.is_one() || (self.cubes.len() >= 3 && c.value(0)),\n            None => false,"))
+
+# ---------------------------------------------------------------- C14
+mut("c14-simplify-no-dedup", "C14",
+    "Sop::simplify forgets dedup for lists of up to 3 cubes (equal cubes keep each other alive through the `*c == *o` guard)",
+    ("src/sop/sop.rs",
+     "        self.cubes.sort();\n        self.cubes.dedup();",
+     "        self.cubes.sort();\n        if self.cubes.len() > 3 {\n            self.cubes.dedup();\n        }"))
+mut("c14-simplify-containment-one-literal-only", "C14",
+    "Sop::simplify only removes a cube implying another when they differ by one literal",
+    ("src/sop/sop.rs",
+     "            if self.cubes.iter().all(|o| *c == *o || !c.implies(*o)) {",
+     "            if self.cubes.iter().all(|o| *c == *o || !c.implies(*o) || c.num_lits() > o.num_lits() + 1) {"))
+mut("c14-not-drops-negative-literals-of-partial-cubes", "C14",
+    "Not for &Sop ignores the negative literals of cubes that do not mention every variable",
+    ("src/sop/sop.rs",
+     "            for l in c.neg_vars() {\n                v.push(Cube::nth_var(l));\n            }",
+     "            if c.num_lits() == self.num_vars || c.num_lits() < 2 {\n                for l in c.neg_vars() {\n                    v.push(Cube::nth_var(l));\n                }\n            }"))
+mut("c14-and-drops-product-of-equal-partial-cubes", "C14",
+    "Sop::and drops the product of two identical cubes unless they are minterms",
+    ("src/sop/sop.rs",
+     "                let c = c1 & c2;\n                if c != Cube::zero() {",
+     "                let c = c1 & c2;\n                if c != Cube::zero() && (c1 != c2 || c1.num_lits() == a.num_vars) {"))
+mut("c14-from-lut-skips-last-minterm", "C14",
+    "From<&Lut> for Sop skips the all-ones assignment for functions of 8 or more variables",
+    ("src/sop/sop.rs",
+     "        let mx = value.num_bits();\n        for mask in 0..mx {\n            if value.value(mask) {\n                ret.cubes.push(Cube::minterm(value.num_vars(), mask));",
+     "        let mx = value.num_bits() - if value.num_vars() >= 8 { 1 } else { 0 };\n        for mask in 0..mx {\n            if value.value(mask) {\n                ret.cubes.push(Cube::minterm(value.num_vars(), mask));"))
+mut("c14-is-one-any-cube", "C14",
+    "Sop::is_one looks at the last cube instead of the first",
+    ("src/sop/sop.rs",
+     "        match self.cubes.first() {\n            Some(c) => c.is_one(),",
+     "        match self.cubes.last() {\n            Some(c) => c.is_one() || (self.cubes.len() > 2 && c.num_lits() == 1),"))
